@@ -72,6 +72,33 @@ class Module:
     def is_c(self, n):
         return isinstance(n, ast.Attribute) and isinstance(n.value, ast.Name) and n.value.id == "construct"
 
+    def plain(self, n, loc):
+        """an ordinary (non-construct) value -- layout tables, records, numbers -- by the general interpreter (E-ABS)"""
+        from sa.abseval import AbsEval, AbsRaise, SymbolicBranch
+        from sa.consteval import NotConstant, Opaque
+        if self.world.ae is None:
+            from sa.model import Model
+            self.world.ae = AbsEval(Model(self.world.src))
+        try:
+            v = self.world.ae.eval(n, dict(loc), self.name)
+        except (NotConstant, AbsRaise, SymbolicBranch, RecursionError) as e:
+            raise NotImplementedError(f"{ast.unparse(n)[:40]}: {e}")
+        if isinstance(v, Opaque):
+            raise NotImplementedError(f"{ast.unparse(n)[:40]} is opaque")
+        return v
+
+    def args_of(self, call, loc):
+        out = []
+        for a in call.args:
+            if isinstance(a, ast.Starred):
+                v = self.ev(a.value, loc)
+                if not isinstance(v, (list, tuple)):
+                    raise NotImplementedError("star argument is not a sequence")
+                out += list(v)
+            else:
+                out.append(self.ev(a, loc))
+        return out
+
     def ev(self, n, loc):
         if isinstance(n, ast.Constant):
             return n.value
@@ -83,7 +110,7 @@ class Module:
             if n.id in self.funcs:
                 # a named function used where construct takes a callable (decoder=, Computed(), Check()): an expression like a lambda
                 return Expr(n.id, self.funcs[n.id], self.name)
-            raise NotImplementedError(f"name {n.id}")
+            return self.plain(n, loc)
         if isinstance(n, ast.Attribute):
             if self.is_c(n):
                 if n.attr in PRIMS:
@@ -102,6 +129,8 @@ class Module:
             base = self.ev(n.value, loc)
             if isinstance(base, Expr):
                 return Expr(ast.unparse(n), n, self.name)
+            if type(base).__name__ == "AObj" and n.attr in base.attrs:
+                return base.attrs[n.attr]
             if isinstance(base, N) and base.kind == "Enum":
                 return EnumVal(base.src or "?", n.attr, base.a["mapping"][n.attr])
             raise NotImplementedError(f"attr {ast.unparse(n)}")
@@ -174,9 +203,21 @@ class Module:
 
     def call(self, n, loc):
         f = n.func
+        if isinstance(f, ast.Name) and f.id == "map" and len(n.args) == 2 and not n.keywords and "map" not in loc:
+            seq = self.ev(n.args[1], loc)
+            if isinstance(seq, dict):
+                seq = list(seq)
+            if not isinstance(seq, (list, tuple)):
+                raise NotImplementedError("map over a non-sequence")
+            g = n.args[0]
+            if isinstance(g, ast.Name) and g.id in self.funcs:
+                return [self.inline_values(self, self.funcs[g.id], [x]) for x in seq]
+            if isinstance(g, ast.Lambda):
+                return [self.ev(g.body, {**loc, **dict(zip([a.arg for a in g.args.args], [x]))}) for x in seq]
+            raise NotImplementedError("map with an unresolved function")
         if self.is_c(f):
             k = f.attr
-            args = [self.ev(a, loc) for a in n.args]
+            args = self.args_of(n, loc)
             kw = {a.arg: self.ev(a.value, loc) for a in n.keywords}
             mk = lambda kind, **a: N(kind, a, line=n.lineno)
             if k in ("Struct", "BitStruct", "Select"):
@@ -223,25 +264,50 @@ class Module:
         raise NotImplementedError(f"call {ast.unparse(f)}")
 
     def inline(self, mod, fn, call, loc):
+        return self.inline_values(mod, fn, self.args_of(call, loc), {a.arg: self.ev(a.value, loc) for a in call.keywords if a.arg})
+
+    def inline_values(self, mod, fn, vals, kw=None):
         params = [a.arg for a in fn.args.args]
-        vals = [self.ev(a, loc) for a in call.args]
         l2 = dict(zip(params, vals))
-        for s in fn.body:
+        l2.update(kw or {})
+        dflt = fn.args.defaults
+        for p_, d_ in zip(params[len(params) - len(dflt):], dflt):
+            if p_ not in l2:
+                l2[p_] = mod.ev(d_, {})
+        done, val = mod.run_block(fn.body, l2)
+        if not done:
+            raise NotImplementedError("no return")
+        return val
+
+    def run_block(self, stmts, l2):
+        """grammar-building helper bodies: assignments, returns and conditionals on ordinary values"""
+        for s in stmts:
             if isinstance(s, ast.Expr) and isinstance(s.value, ast.Constant):
                 continue
             if isinstance(s, ast.Assign) and len(s.targets) == 1 and isinstance(s.targets[0], ast.Name):
-                l2[s.targets[0].id] = mod.ev(s.value, l2)
+                l2[s.targets[0].id] = self.ev(s.value, l2)
                 continue
             if isinstance(s, ast.AnnAssign) and isinstance(s.target, ast.Name) and s.value is not None:
-                l2[s.target.id] = mod.ev(s.value, l2)
+                l2[s.target.id] = self.ev(s.value, l2)
                 continue
             if isinstance(s, ast.Return) and s.value is not None:
-                return mod.ev(s.value, l2)
+                return True, self.ev(s.value, l2)
+            if isinstance(s, ast.If):
+                plain_env = {k: v for k, v in l2.items() if not isinstance(v, (N, Expr))}
+                t = self.plain(s.test, plain_env)
+                if not isinstance(t, (bool, int, str, type(None), list, tuple, dict)):
+                    raise NotImplementedError("grammar-building helper: condition on an abstract value")
+                done, val = self.run_block(s.body if t else s.orelse, l2)
+                if done:
+                    return True, val
+                continue
             raise NotImplementedError("grammar-building helper with control flow")
-        raise NotImplementedError("no return")
+        return False, None
 
 
 class World:
+    ae = None
+
     def __init__(self, src):
         self.src = src
         self.mods = {}
